@@ -128,7 +128,7 @@ VARIABLES kind, nm, mfn, labels, pa, pb,      \* configuration (Init)
 
 vars == <<kind, nm, mfn, labels, pa, pb, seen, form, ids, recs, buf, flat, res, j, pc>>
 
-Forms == {"ref_arr", "own_arr", "ref_ds", "own_ds", "inplace", "dirty"}
+Forms == {"ref_arr", "own_arr", "ref_ds", "own_ds", "inplace", "dirty", "caller"}   \* caller: caller-allocated target
 HandsBack(fm) == fm \in {"own_arr", "own_ds"}
 Pool == [i \in 1..P |-> <<i>>]
 RECURSIVE SeqsUpTo(_, _)
